@@ -79,7 +79,7 @@ func (c08rProvider) Get(c logging.LogComponentName) log.Logger {
 func (p c08rProvider) With(...tag.Tag) logging.LoggerProvider { return p }
 
 type c08rOp struct {
-	K string `json:"k"` // remoteOff | remoteOn | reconcile | chanOn | chanOff | chanClose | peerSend | peerEnd | advance
+	K string `json:"k"` // remoteOff | remoteOn | reconcile | reconcileTwice | reconcileThenPrune | chanOn | chanOff | chanClose | peerSend | peerEnd | advance
 	N int    `json:"n,omitempty"`
 }
 
@@ -339,6 +339,27 @@ func c08rRun(t *testing.T, c c08rCase) (viol string, classes map[string]bool) {
 				if remoteOn && before == 0 {
 					classes["stream_(re)established"] = true
 				}
+			case "reconcileTwice":
+				// the periodic pass and a Notify right behind it: the second one runs while the stream the first one
+				// asked for is still being opened
+				before := len(peer.live())
+				m.ReconcilePeerStreams("")
+				m.ReconcilePeerStreams("")
+				vfQuiesce()
+				if remoteOn && before == 0 {
+					classes["second_reconciliation_while_the_stream_was_opening"] = true
+				}
+			case "reconcileThenPrune":
+				// the pair is wanted, a pass creates the receiver - and before its goroutine has got anywhere the pair is
+				// no longer wanted and the next pass prunes it
+				if remoteOn && len(peer.live()) == 0 {
+					m.ReconcilePeerStreams("")
+					setRemote(false)
+					m.ReconcilePeerStreams("")
+					remoteOn = false
+					vfQuiesce()
+					classes["receiver_pruned_before_it_had_started"] = true
+				}
 			case "chanOn":
 				chanOn()
 			case "chanOff":
@@ -512,7 +533,7 @@ func TestVF_C08_IntraProxyReceiver(t *testing.T) {
 		}
 		n := rapid.IntRange(2, 14).Draw(rt, "n")
 		for i := 0; i < n; i++ {
-			k := rapid.SampledFrom([]string{"remoteOn", "remoteOn", "remoteOff", "remoteOff", "reconcile", "reconcile", "reconcile", "reconcile", "chanOn", "chanOff", "chanClose", "peerSend", "peerSend", "peerSend", "peerEnd", "advance", "advance"}).Draw(rt, "k")
+			k := rapid.SampledFrom([]string{"remoteOn", "remoteOn", "remoteOff", "remoteOff", "reconcile", "reconcile", "reconcile", "reconcileTwice", "reconcileThenPrune", "chanOn", "chanOff", "chanClose", "peerSend", "peerSend", "peerSend", "peerEnd", "advance", "advance"}).Draw(rt, "k")
 			o := c08rOp{K: k}
 			if k == "advance" {
 				o.N = rapid.SampledFrom([]int{1, 50, 50, 1500, 5000}).Draw(rt, "ms")
